@@ -109,16 +109,16 @@ def _suites(prop: str, tier: str) -> t.List[Suite]:
             Suite('d0-async', GEN + ['corpus', 'overlap'], ['term'], 0, ['async'], symptoms=TERM),
             Suite('d0-thread', GEN + ['corpus'], ['term'], 0, ['thread'], symptoms=TERM),
             Suite('composed', COMPOSED, ['term'], 0, ['async'] if q else ['async', 'thread'], symptoms=TERM, plans='std' if q else 'pairs'),
-            Suite('d1', ['corpus'] + ([] if q else GEN), ['term'], 1, ['thread'], symptoms=TERM, max_nodes=5 if q else 5),
+            Suite('d1', ['corpus'] + ([] if q else ['plain', 'oneof', 'switch']), ['term'], 1, ['thread'], symptoms=TERM, max_nodes=5 if q else 5),
         ] + [
             Suite(f'set-order-{o}', ['corpus'] + ([] if q else ['oneofx', 'mix', 'recx', 'switchx']), ['term'], 0, ['async'],
                   collab={'set_order': o}, symptoms=TERM, min_nodes=6)
             for o in ('sorted', 'reversed')
         ] + [
-            Suite('gated-collab', ['corpus', 'plain'] + ([] if q else ['oneof', 'switch', 'rec']), ['term'], 0, ['async'],
+            Suite('gated-collab', ['corpus', 'plain'] + ([] if q else ['oneof']), ['term'], 0, ['async'],
                   collab={'mode': 'gated', 'store': 'rec'}, symptoms=TERM, max_nodes=4 if q else 5),
         ] + [
-            Suite(f'raise-{kind}@{k}', ['corpus', 'plain'] + ([] if q else ['oneof', 'switch', 'rec']), ['term'], 0, ['async'],
+            Suite(f'raise-{kind}@{k}', ['corpus', 'plain'], ['term'], 0, ['async'],
                   collab={'raise_at': [kind, k], 'store': 'rec'}, symptoms=TERM, max_nodes=4 if q else 5, plans='ok+fail')
             for kind in ('pipeline_start', 'node_start', 'node_complete', 'pipeline_complete', 'save')
             for k in ((0, 1) if kind in ('node_start', 'node_complete', 'save') else (0,))
